@@ -26,7 +26,7 @@ from ..core import Ctx
 from ..loader import AnalysisError
 from ..resolve import last_attr
 from ..util import calls
-from ._g1_helpers import Ev, ExcObj, Obj
+from ._g1_helpers import anchor_fn, Ev, ExcObj, Obj
 
 META = {
     "text": "Finite-domain evaluation of the XFCC parser and of the authenticate closure extracted from the AST (never imported): one "
@@ -75,7 +75,7 @@ def _reason_of(e: ExcObj):
     return e.attrs.get("vgi_auth_reason")
 
 
-def run(ctx: Ctx) -> None:
+def _run_impl(ctx: Ctx, evs: list) -> None:
     ctx.explanation = META["text"]
     ctx.not_decided = ("values of every grammar-generated header (only the representative set is evaluated); RFC 4514 escaping inside the Subject DN; "
                        "that the proxy strips client-supplied XFCC headers (deployment assumption stated by the module).")
@@ -86,8 +86,9 @@ def run(ctx: Ctx) -> None:
     ]
     ctx.trusted += ["G1 evaluator (sa/props/_g1_helpers.py): Python expression/statement semantics for the supported subset"]
     ev = Ev(ctx)
-    parse_fi = ctx.fn(PARSE)
-    auth_fi = ctx.fn(AUTH)
+    evs.append(ev)
+    parse_fi = anchor_fn(ctx, PARSE)
+    auth_fi = anchor_fn(ctx, AUTH)
     parse = ev.func(PARSE)
     factory = ev.func(FACTORY)
     R = {n: ev.enum_member(REASON, n) for n in ("PROXY_REQUIRED", "INVALID_CREDENTIAL", "MISSING_CREDENTIAL")}
@@ -218,3 +219,12 @@ def run(ctx: Ctx) -> None:
                   ok="both the element delimiter ',' and the pair delimiter ';' go through _split_respecting_quotes", bad=f"quote-aware splitter is used for {delims!r} only")
     else:
         ctx.note("RF-WHO quote-aware-splitter-used-for-both-delimiters: splitter calls with literal delimiters not recognised; decided by the boundary evaluation only")
+
+
+def run(ctx: Ctx) -> None:
+    evs: list = []
+    try:
+        _run_impl(ctx, evs)
+    finally:
+        for e in evs:
+            ctx.note(e.stats())
